@@ -17,6 +17,8 @@ package main
 //	38 resize: before the new table is published          (R2)
 //	39 resize: before the resizing flag is cleared        (R3)
 //	40 Get: after the table load                          (G1)
+//	41 Range: after the table load                        (I1, nothing read)
+//	42 Range: before a bucket's Lock                      (I1; only buckets some thread's key lives in)
 //
 // and exactly one of them is resumed at a time; it runs to its next hook point, to the end of its
 // call, or until it blocks on a bucket lock or on the resize condition variable (decided from the
@@ -29,7 +31,9 @@ package main
 //
 // Implementation-only oracles (C15, C02): every Compute invokes its function exactly once; at the end
 // the table's content (Range) and Size are those of a sequential map to which the functions were
-// applied in the order they were invoked; each function was given the binding that sequential map had.
+// applied in the order they were invoked; each function was given the binding that sequential map had;
+// a Range yields no key twice, yields every key that was bound during its whole duration, and yields
+// only bindings the key had at some moment of its duration.
 
 import (
 	"fmt"
@@ -80,7 +84,7 @@ func condReasonWorks() bool {
 
 type tbThread struct {
 	idx      int
-	kind     byte // 'W' Compute, 'G' Get
+	kind     byte // 'W' Compute, 'G' Get, 'I' Range
 	key      int
 	op       int // 1 set val, 2 delete, 3 add val to an existing binding, 0 leave as is
 	val      int
@@ -92,6 +96,16 @@ type tbThread struct {
 	calls    int
 	resFound bool
 	resVal   int
+	yielded  [][2]int // Range: the pairs yielded, in order
+	startIdx int      // Range: number of function invocations before it started
+	endIdx   int      // Range: ... when it returned
+}
+
+// keyChange: after the idx-th function invocation of the case the key is bound to val (or absent)
+type keyChange struct {
+	idx     int
+	present bool
+	val     int
 }
 
 type tbEvent struct {
@@ -110,6 +124,21 @@ type tbCtl struct {
 	flog    []string // function invocations since the last observation
 	spec    map[int]int
 	specBad string
+	nInv    int                 // function invocations so far
+	changes map[int][]keyChange // per key, its bindings over the invocations (entry 0: the preloaded one)
+}
+
+// bindingAt returns the key's binding after the idx-th invocation
+func (c *tbCtl) bindingAt(k, idx int) (int, bool) {
+	var v int
+	ok := false
+	for _, ch := range c.changes[k] {
+		if ch.idx > idx {
+			break
+		}
+		v, ok = ch.val, ch.present
+	}
+	return v, ok
 }
 
 func (c *tbCtl) lookup() *tbThread {
@@ -138,7 +167,7 @@ func (c *tbCtl) hookFn(id int, idx uint32) {
 	if th == nil {
 		return
 	}
-	if id == 37 && !c.interesting(idx) {
+	if (id == 37 || id == 42) && !c.interesting(idx) {
 		return
 	}
 	c.ev <- tbEvent{idx: th.idx, kind: 'A', hook: id, hidx: idx}
@@ -226,7 +255,7 @@ func (c *tbCtl) labels() string {
 	for _, th := range c.threads {
 		switch th.state {
 		case 'P':
-			if th.hook == 31 || th.hook == 37 {
+			if th.hook == 31 || th.hook == 37 || th.hook == 42 {
 				fmt.Fprintf(&sb, " P%d:%d", th.hook, th.hidx)
 			} else {
 				fmt.Fprintf(&sb, " P%d", th.hook)
@@ -269,7 +298,7 @@ func runTbl(seed uint64, scale int, out string, _ string) *summary {
 		sr := &rng{s: r.next()}
 		stage := sr.intn(5) // 0,1 grow; 2,3 shrink; 4 plain
 		m := otter.VerifNewMap(0)
-		ctl := &tbCtl{byGoid: map[int64]*tbThread{}, ev: make(chan tbEvent, 1024), m: m, spec: map[int]int{}}
+		ctl := &tbCtl{byGoid: map[int64]*tbThread{}, ev: make(chan tbEvent, 1024), m: m, spec: map[int]int{}, changes: map[int][]keyChange{}}
 		set := func(k, v int) {
 			m.Compute(k, func(int, bool) (int, int) { return v, 1 })
 		}
@@ -375,6 +404,7 @@ func runTbl(seed uint64, scale int, out string, _ string) *summary {
 		m.Range(func(k, v int) bool {
 			t.line("PRE %d %d", k, v)
 			ctl.spec[k] = v
+			ctl.changes[k] = []keyChange{{0, true, v}}
 			return true
 		})
 		otter.VerifSetMapHook(ctl.hookFn)
@@ -452,8 +482,10 @@ func runTbl(seed uint64, scale int, out string, _ string) *summary {
 			if newThread {
 				started++
 				th := &tbThread{release: make(chan struct{}, 1), state: 'R', key: pickKey()}
-				if sr.chance(25) {
+				if x := sr.intn(100); x < 20 {
 					th.kind = 'G'
+				} else if x < 32 {
+					th.kind = 'I'
 				} else {
 					th.kind = 'W'
 					th.op = []int{1, 1, 2, 2, 3, 0}[sr.intn(6)]
@@ -478,6 +510,22 @@ func runTbl(seed uint64, scale int, out string, _ string) *summary {
 						ctl.mu.Lock()
 						th.resVal, th.resFound = v, ok
 						ctl.mu.Unlock()
+					} else if th.kind == 'I' {
+						ctl.mu.Lock()
+						th.startIdx = ctl.nInv
+						ctl.mu.Unlock()
+						var ys [][2]int
+						m.Range(func(k, v int) bool {
+							ys = append(ys, [2]int{k, v})
+							return true
+						})
+						ctl.mu.Lock()
+						th.yielded = ys
+						th.endIdx = ctl.nInv
+						for _, y := range ys {
+							ctl.flog = append(ctl.flog, fmt.Sprintf("Y %d %d %d", th.idx, y[0], y[1]))
+						}
+						ctl.mu.Unlock()
 					} else {
 						m.Compute(th.key, func(old int, found bool) (int, int) {
 							ctl.mu.Lock()
@@ -492,16 +540,20 @@ func runTbl(seed uint64, scale int, out string, _ string) *summary {
 							if sok != found || (found && sv != old) {
 								ctl.specBad = fmt.Sprintf("thread %d key %d was given (%d,%v), the sequential map has (%d,%v)", th.idx, th.key, old, found, sv, sok)
 							}
+							ctl.nInv++
 							switch th.op {
 							case 1:
 								ctl.spec[th.key] = th.val
+								ctl.changes[th.key] = append(ctl.changes[th.key], keyChange{ctl.nInv, true, th.val})
 								return th.val, 1
 							case 2:
 								delete(ctl.spec, th.key)
+								ctl.changes[th.key] = append(ctl.changes[th.key], keyChange{ctl.nInv, false, 0})
 								return 0, 2
 							case 3:
 								if found {
 									ctl.spec[th.key] = old + th.val
+									ctl.changes[th.key] = append(ctl.changes[th.key], keyChange{ctl.nInv, true, old + th.val})
 									return old + th.val, 1
 								}
 								return 0, 0
@@ -514,6 +566,9 @@ func runTbl(seed uint64, scale int, out string, _ string) *summary {
 				if th.kind == 'G' {
 					script = append(script, fmt.Sprintf("G(%d)", th.key))
 					t.line("N G %d", th.key)
+				} else if th.kind == 'I' {
+					script = append(script, "I")
+					t.line("N I")
 				} else {
 					script = append(script, fmt.Sprintf("W(%d,%d,%d)", th.key, th.op, th.val))
 					t.line("N W %d %d %d", th.key, th.op, th.val)
@@ -573,6 +628,45 @@ func runTbl(seed uint64, scale int, out string, _ string) *summary {
 			}
 		}
 		ctl.mu.RUnlock()
+		rangeBad := ""
+		ctl.mu.RLock()
+		for _, th := range ctl.threads {
+			if th.kind != 'I' || th.state != 'D' {
+				continue
+			}
+			seenKeys := map[int]int{}
+			for _, y := range th.yielded {
+				if _, dup := seenKeys[y[0]]; dup {
+					rangeBad = fmt.Sprintf("Range thread %d yielded key %d twice", th.idx, y[0])
+				}
+				seenKeys[y[0]] = y[1]
+				okAt := false
+				for idx := th.startIdx; idx <= th.endIdx; idx++ {
+					if v, ok := ctl.bindingAt(y[0], idx); ok && v == y[1] {
+						okAt = true
+					}
+				}
+				if !okAt {
+					rangeBad = fmt.Sprintf("Range thread %d yielded (%d,%d), a binding the key had at no moment of the iteration (invocations %d..%d)", th.idx, y[0], y[1], th.startIdx, th.endIdx)
+				}
+			}
+			for k := range ctl.changes {
+				always := true
+				for idx := th.startIdx; idx <= th.endIdx; idx++ {
+					if _, ok := ctl.bindingAt(k, idx); !ok {
+						always = false
+					}
+				}
+				if _, got := seenKeys[k]; always && !got {
+					rangeBad = fmt.Sprintf("Range thread %d did not yield key %d, bound during the whole iteration (invocations %d..%d)", th.idx, k, th.startIdx, th.endIdx)
+				}
+			}
+		}
+		ctl.mu.RUnlock()
+		if rangeBad != "" {
+			sum.fail("C15", "tbl-range", "a Range yielded a key twice, missed a key bound during its whole duration, or yielded a binding the key never had meanwhile", fmt.Sprintf("%s: %s script=%s", desc, rangeBad, strings.Join(script, " ")))
+			failures++
+		}
 		if bad != "" {
 			sum.fail("C15", "tbl-compute-once", "a Compute did not invoke its function exactly once on the binding the sequential map had", fmt.Sprintf("%s: %s script=%s", desc, bad, strings.Join(script, " ")))
 			failures++
